@@ -115,3 +115,40 @@ Fixpoint check_svc (ks : list scase) : list mismatch :=
   | [] => []
   | k :: rest => match check_scase k with Some m => m :: check_svc rest | None => check_svc rest end
   end.
+
+(* ---- the PONG handling inside the main loop: auto-NAT windows, events as the application's
+   current subscription sees them.  Votes never expire inside a case (vote duration 2^60 logical
+   ticks); the windows run on the paused tokio clock, whose value is part of every step. *)
+(* event, tokio clock (ms), implementation's encoding *)
+Definition lstepc := (lev * N * list N)%type.
+(* id, minimum, dual stack, auto-NAT window, (seq, udp4, udp6), steps *)
+Definition lcase := (N * N * bool * option N * (N * option N * option N) * list lstepc)%type.
+
+Fixpoint check_lsteps (n : node) (steps : list lstepc) (idx : N) : option (N * list N * list N) :=
+  match steps with
+  | [] => None
+  | (e, now, expect) :: rest =>
+    let n' := lstep n now e in
+    let got := enc_svc (n_svc n) (n_svc n') in
+    if negb (list_N_eqb got expect) then Some (idx, got, expect)
+    else check_lsteps n' rest (idx + 1)
+  end.
+
+Definition check_lcase (k : lcase) : option mismatch :=
+  let '(id, mn, dual, win, (sq, u4, u6), steps) := k in
+  match new_ipvote mn (2 ^ 60) with
+  | None => Some {| mm_case := id; mm_step := 0; mm_model := [999]; mm_impl := [] |}
+  | Some iv =>
+    let s := {| ip_votes := Some iv; dual_stack := dual;
+                enr := {| seq := sq; udp4 := u4; udp6 := u6 |}; events := [] |} in
+    match check_lsteps {| n_svc := s; n_conn := new_conn win |} steps 0 with
+    | None => None
+    | Some (i, m, e) => Some {| mm_case := id; mm_step := i; mm_model := m; mm_impl := e |}
+    end
+  end.
+
+Fixpoint check_loop (ks : list lcase) : list mismatch :=
+  match ks with
+  | [] => []
+  | k :: rest => match check_lcase k with Some m => m :: check_loop rest | None => check_loop rest end
+  end.
